@@ -68,6 +68,7 @@ def check_operator(repo: Repo, rep: Report, rule: str, ref_key: str, why: Callab
         rep.rule("F0-scheduler-forwarded", "every subscription an operator makes on behalf of a subscriber passes that subscriber's "
                                            "scheduler on (virtual time reaches time-based inner / fallback / source sequences)", floor=1)
     rule_scheduler_forwarded(rep, "F0-scheduler-forwarded", f)
+    discipline(rep, f)
     keys = sorted(set(ref) | set(got))
     for k in keys:
         r, g = ref.get(k), got.get(k)
@@ -235,3 +236,19 @@ def pipelines_exact(repo: Repo, rep: Report, rule: str, table) -> None:
         rep.ob(rule, f, f"{name} pipelines == {want}", ok,
                f"{name} is documented (and confirmed) as the pipeline(s) {want}; it now composes {got}: a stage was added, "
                f"removed or reordered, so its elements / termination differ from the composition it is specified as")
+
+
+def discipline(rep: Report, f: Fn) -> None:
+    """State-discipline rules every stateful operator of this code base follows (confirmed over the whole package; see
+    sync_common / state_common): gate state before the downstream call it gates, callback state before the subscribe
+    that may call back, lock-protected state always under the lock."""
+    from . import state_common as SC
+    from . import sync_common as SY
+    for rid, text in (("G0-state-before-callout", "gate state is updated before the downstream on_next it gates (re-entrant sources)"),
+                      ("G0-state-before-subscribe", "state read by the callbacks of a subscribe call is set before that call (synchronous sources)"),
+                      ("G0-locked-state", "closure state written under the operator's lock is always written under it; no check-then-act across the lock")):
+        if rid not in rep.rules:
+            rep.rule(rid, text, floor=0)
+    SC.rule_state_before_callout(rep, "G0-state-before-callout", f)
+    SY.rule_state_before_subscribe(rep, "G0-state-before-subscribe", f)
+    SY.rule_locked_state_consistent(rep, "G0-locked-state", f)
